@@ -336,7 +336,7 @@ theorem checkFn_shape {c : Req.Check} {p : String} {f : Arg → Except PyExc Arg
   case bool q => cases x <;> simp only [iparamBool] at h <;> (try cases h) <;> rfl
   case posInt q =>
     cases x <;> simp only [iparamPosInt] at h <;> (try split at h) <;> (try cases h) <;> rfl
-  case propertyList q => cases x <;> simp only [iparamPropertyList] at h <;> (try cases h) <;> rfl
+  case propertyList q => cases x <;> simp only [iparamPropertyList] at h <;> (try split at h) <;> (try cases h) <;> rfl
   case maxObjOpenPull q =>
     simp only [validateMaxObj] at h
     obtain ⟨_, _, h⟩ := bind_ok h
@@ -387,7 +387,7 @@ theorem checkFn_sent_preserve {c : Req.Check} {p : String} {f : Arg → Except P
   case bool q => cases x <;> simp only [iparamBool] at h <;> (try cases h) <;> rfl
   case posInt q =>
     cases x <;> simp only [iparamPosInt] at h <;> (try split at h) <;> (try cases h) <;> rfl
-  case propertyList q => cases x <;> simp only [iparamPropertyList] at h <;> (try cases h) <;> rfl
+  case propertyList q => cases x <;> simp only [iparamPropertyList] at h <;> (try split at h) <;> (try cases h) <;> rfl
   case «instance» q => cases x <;> simp only [iparamInstance] at h <;> (try cases h) <;> exact hx
   case maxObjOpenPull q =>
     simp only [validateMaxObj] at h
@@ -462,7 +462,7 @@ theorem checkFn_sent_establish {c : Req.Check} {p : String} {f : Arg → Except 
   case bool q => cases x <;> simp only [iparamBool] at h <;> (try cases h) <;> rfl
   case posInt q =>
     cases x <;> simp only [iparamPosInt] at h <;> (try split at h) <;> (try cases h) <;> rfl
-  case propertyList q => cases x <;> simp only [iparamPropertyList] at h <;> (try cases h) <;> rfl
+  case propertyList q => cases x <;> simp only [iparamPropertyList] at h <;> (try split at h) <;> (try cases h) <;> rfl
   case maxObjOpenPull q =>
     simp only [validateMaxObj] at h
     obtain ⟨y, hy, h⟩ := bind_ok h
@@ -534,6 +534,12 @@ theorem runNsCheck_get {dn : Str} {s s' : St} {c : Req.Check} (h : runNsCheck dn
       · split at h
         · cases h; rfl
         · cases h; rfl
+    · cases h; rfl
+  case nsFromInstancePathIfNone p =>
+    split at h
+    · split at h
+      · cases h; rfl
+      · cases h; rfl
     · cases h; rfl
   case nsFromContext p =>
     split at h
